@@ -495,6 +495,12 @@ impl CommandBuilder<'_> {
                 }
                 Err(e) => Err(CommandExecutionError::CannotRun(e)),
             },
+            ExecAction::Echo if self.options.replace.is_some() => {
+                // There is no initial argument to replace anything in, and
+                // nothing is appended.
+                println!();
+                Ok(CommandResult::Success)
+            }
             ExecAction::Echo => {
                 println!(
                     "{}",
